@@ -19,10 +19,13 @@ S = [Opt('int', b'a', 0, 2), Opt('sec', b'deep', 0, None, N)]
 T = [Opt('int', b'a', 0, 3)]
 ROOT = [Opt('int', b'x', 0, 0), Opt('sec', b's', 0, None, S), Opt('sec', b'm', F['MULTI'], None, MM),
         Opt('sec', b't', F['MULTI'] | F['TITLE'], None, T), Opt('strl', b'l', 0, b'{a,b}'),
-        Opt('sec', b'e', F['MULTI'], None, T)]
+        Opt('sec', b'e', F['MULTI'], None, T),
+        # a titled section that is NOT multi: its one instance carries a title from the text; a qualifier never resolves
+        Opt('sec', b'st', F['TITLE'] | F['NODEFAULT'], None, T)]
 TEXT = (b'm { a = 10 n u { z = 1 } n "v|w" { z = 2 } n "q\'r" { z = 3 } n "b\\\\s" { z = 4 } }\n'
         b'm { a = 11 }\nm { a = 12 n "1" { z = 5 } }\n'
-        b't one { a = 5 }\nt "tw o" { a = 6 }\nt "01" { a = 7 }\nt "=" { a = 8 }\nt "k=v" { a = 9 }\nt "a=b=c" { a = 10 }\n')
+        b't one { a = 5 }\nt "tw o" { a = 6 }\nt "01" { a = 7 }\nt "=" { a = 8 }\nt "k=v" { a = 9 }\nt "a=b=c" { a = 10 }\nt "" { a = 11 }\n'
+        b'st main { a = 12 }\n')
 
 SCHEMA_BY_NAME = {}
 
@@ -186,7 +189,7 @@ def good_paths():
                 paths += [f + b"|n=1|z", f + b"|n='1'|z", f + b'|n|z']
     for t in (b'one', b'tw o', b'01', b'=', b'k=v', b'a=b=c'):
         paths += [b't=' + t + b'|a' if t != b'=' else b"t='='|a", b't=' + quote(t) + b'|a']
-    paths += [b't|a']
+    paths += [b't|a', b"t=''|a", b'st|a']
     return paths
 
 
@@ -205,7 +208,7 @@ def generate(rng, tier):
     bad = []
     for p in good:
         bad += broken(p, rng)
-    bad += [b'=', b'|', b'||', b'', b"'", b'm=', b'm=|a', b't=|a', b"t=''|a", b'e|a', b'e=0|a', b'e=0', b'l|a', b'x|a', b'x=0', b'm=1|n|z',
+    bad += [b'=', b'|', b'||', b'', b"'", b'm=', b'm=|a', b't=|a', b'st=main|a', b"st='main'|a", b'st=0|a', b'st=main', b's=0|a', b'e|a', b'e=0|a', b'e=0', b'l|a', b'x|a', b'x=0', b'm=1|n|z',
             b'm=1|n=u|z', b'nosuch', b'nosuch|a', b's|nosuch', b'm=0|n=nosuch|z', b'm=0|n=u', b'm=0|n=u|', b'm|=x', b'm=0|=x', b'm=0|n=u||=|']
     bad = list(dict.fromkeys(bad))
     allp = [(p, 'good') for p in good] + [(p, 'broken') for p in bad]
